@@ -90,3 +90,132 @@ def ideal_linear_solver():
         yield
     finally:
         S._Solve_Axb = orig
+
+
+# ----------------------------------------------------------------------------------------------------
+# Verified enclosure of the exact solution for larger concrete systems (DESIGN.md section 2.3, amended):
+# x = Z b + e with a rigorous bound on e obtained from exact integer arithmetic on the float approximate
+# inverse Z:  ||A^-1||_inf <= ||Z||_inf / (1 - ||I - Z A||_inf).  The error enters the result as fresh
+# bounded symbolic variables, so every later obligation is decided for every value the exact solution can take.
+def _to_int_matrix(A):
+    A = np.asarray(A, dtype=float)
+    m, e = np.frexp(A)
+    mi = np.round(m * 2.0 ** 53).astype(np.int64)
+    ex = e.astype(np.int64) - 53
+    nz = mi != 0
+    emin = int(ex[nz].min()) if nz.any() else 0
+    out = np.zeros(A.shape, dtype=object)
+    for idx in np.ndindex(*A.shape):
+        v = int(mi[idx])
+        out[idx] = (v << int(ex[idx] - emin)) if v else 0
+    return out, emin  # A = out * 2**emin
+
+
+def enclosure_inverse(A):
+    """Z (float), rigorous upper bound on ||A^-1||_inf (Fraction)."""
+    Z = np.linalg.inv(A)
+    Ai, ea = _to_int_matrix(A)
+    Zi, ez = _to_int_matrix(Z)
+    P = Zi.dot(Ai)  # exact integers, scaled by 2**(ea+ez)
+    sh = ea + ez
+    n = A.shape[0]
+    one = Fraction(1)
+    scale = Fraction(2) ** sh
+    worst = Fraction(0)
+    for i in range(n):
+        s = Fraction(0)
+        row = P[i]
+        for j in range(n):
+            v = row[j] * scale
+            if i == j:
+                v = one - v
+            s += abs(v)
+        worst = max(worst, s)
+    if worst >= Fraction(1, 2):
+        raise linsolve.Singular(f"approximate inverse not accurate enough (||I - Z A|| = {float(worst):.3g}): matrix numerically singular")
+    normZ = max(sum(abs(Fraction(float(v))) for v in Z[i]) for i in range(n))
+    return Z, normZ / (1 - worst), worst
+
+
+def enclosing_solve(A, b, tag="x"):
+    """A concrete (n,n) floats, b vector of polynomial Sym. Returns x with x_i = (Z b)_i + delta_i, |delta_i| <= eps rigorous."""
+    A = np.asarray(_dense_obj(A), dtype=float)
+    B = _dense_obj(b)
+    if B.ndim == 1:
+        B = B[:, None]
+    n = A.shape[0]
+    c = ctx()
+    monos = {}
+    rows = []
+    for i in range(n):
+        s = as_sym(B[i, 0])
+        if not s.d.is_const():
+            raise NotImplementedError("rational right-hand side in enclosing_solve")
+        p = s.n.scale(1 / s.d.const_value())
+        rows.append(p)
+        for m in p.t:
+            monos.setdefault(m, len(monos))
+    if not monos:
+        return np.zeros(n, dtype=object)
+    Z, normAinv, defect = enclosure_inverse(A)
+    Ai, ea = _to_int_matrix(A)
+    from . import smt as _smt
+
+    out = [Poly() for _ in range(n)]
+    eps = Fraction(0)
+    for m, k in monos.items():
+        bk = [rows[i].t.get(m, Fraction(0)) for i in range(n)]
+        bkf = np.array([float(v) for v in bk])
+        xk = Z @ bkf
+        xi, ex = _to_int_matrix(xk.reshape(-1, 1))
+        Ax = Ai.dot(xi)[:, 0]
+        sc = Fraction(2) ** (ea + ex)
+        rinf = max(abs(bk[i] - Ax[i] * sc) for i in range(n))
+        # magnitude of the monomial over the box
+        box = {}
+        for v, e in m:
+            lo, hi = c.dom.get(v, (None, None))
+            if lo is None or hi is None:
+                raise NotImplementedError("enclosing_solve needs bounded symbols")
+            box[v] = (lo, hi)
+        lo, hi = _smt.mono_interval(m, box) if m else (Fraction(1), Fraction(1))
+        eps += normAinv * rinf * max(abs(lo), abs(hi))
+        for i in range(n):
+            v = Fraction(float(xk[i]))
+            if v:
+                out[i] = out[i].add(Poly({m: v}))
+    # round the bound up to a short dyadic rational
+    import math
+
+    epsf = Fraction(math.ceil(float(eps) * 2 ** 80 * (1 + 1e-9)) + 1, 2 ** 80)
+    res = np.empty(n, dtype=object)
+    for i in range(n):
+        d = c.var(f"{tag}_err{i}_{len(c.names)}", -epsf, epsf, shadow=0, kind="input")
+        res[i] = Sym(out[i]) + d
+    SOLVER_LOG.append((n, False, float(epsf)))
+    return res, epsf
+
+
+EXACT_LIMIT = 45
+
+
+def _solve_axb_enclosing(simu, problemType, A, b, x0, lb, ub, resol=None, ownedDofs=None, mapping=None):
+    Ad = _dense_obj(A)
+    if has_sym(Ad) or Ad.shape[0] <= EXACT_LIMIT:
+        return _solve_axb_stub(simu, problemType, A, b, x0, lb, ub)
+    facade.USED_STUBS.add("Solvers._Solve_Axb -> verified enclosure of the exact solution (float inverse + exact integer residual bound; "
+                          "error carried as bounded symbolic variables) for systems larger than %d unknowns" % EXACT_LIMIT)
+    x, eps = enclosing_solve(Ad, b)
+    return x
+
+
+@contextlib.contextmanager
+def enclosing_linear_solver():
+    import EasyFEA.Simulations.Solvers as S
+
+    orig = S._Solve_Axb
+    S._Solve_Axb = _solve_axb_enclosing
+    try:
+        yield
+    finally:
+        S._Solve_Axb = orig
